@@ -68,6 +68,18 @@ Definition is_allowed (k : string) : bool := existsb (fun p => String.eqb (fst p
 Definition census_covered (ops : list (string * bool)) : bool := forallb (fun o => snd o || is_allowed (fst o)) ops.
 Definition uncovered (ops : list (string * bool)) : list string := map fst (filter (fun o => negb (snd o || is_allowed (fst o))) ops).
 
+(* The reason [Reply] rests on the channel having room for its one answer: every creation of a channel that is
+   answered on outside a select (Gen/Facts.v chan_makes, regenerated from the sources: what the new channel is
+   assigned to, its capacity) has a capacity of at least 1. *)
+Definition reply_names : list string :=
+  ["response"; "reply"; "out"; "forward"; "terminationChannels"; "signal"; "okCh"]%string.
+Definition is_reply (m : string * string * nat) : bool := existsb (String.eqb (snd (fst m))) reply_names.
+Definition replies_have_room (ms : list (string * string * nat)) : bool :=
+  forallb (fun m => negb (is_reply m) || (1 <=? snd m)) ms.
+Definition reply_count (ms : list (string * string * nat)) : nat := List.length (filter is_reply ms).
+Definition cramped (ms : list (string * string * nat)) : list string :=
+  map (fun m => fst (fst m)) (filter (fun m => is_reply m && (snd m <? 1)) ms).
+
 (* a goroutine as the list of its blocking points (true = has an alternative that fires on cancellation or
    is a listed non-blocking operation): it can always leave a point it is blocked at once the context is cancelled *)
 Definition exits_on_cancel (points : list bool) : bool := forallb (fun b => b) points.
